@@ -7,6 +7,7 @@ Line-protocol driver for MpycV.Model.Tools (C32).  Requests (one per line):
 Elements live in the free magma `Tree`; answers are the exact application trees.
 -/
 import MpycV.Model.Tools
+import MpycV.Model.Sort
 import MpycV.Model.Util
 open MpycV MpycV.Util MpycV.Tools
 
@@ -18,8 +19,71 @@ def parseInit? (s : String) : Option (Option Tree) :=
 def showTrees (l : List Tree) : String :=
   if l.isEmpty then "-" else ";".intercalate (l.map Tree.show)
 
+/-! C29: elements are integer lists ("k,p"), the key is a function of the first component -/
+
+def keyOf (k : String) (a : List Int) : Int :=
+  let v := a.headD 0
+  if k == "neg" then -v else if k == "sq" then v * v else v
+
+def ltOf (k : String) (a b : List Int) : Bool := decide (keyOf k a < keyOf k b)
+
+def parseElems? (ts : List String) : Option (List (List Int)) := ts.mapM parseIntList?
+
+def showElems (l : List (List Int)) : String :=
+  if l.isEmpty then "-" else " ".intercalate (l.map showIntList)
+
+def validKey (k : String) : Bool := k == "id" || k == "neg" || k == "sq"
+
+def stepSort (op k : String) (rest : List String) : String :=
+  if !validKey k then "bad-op" else
+  match op, rest with
+  | "sort", r :: es =>
+    match parseElems? es with
+    | some x => if r == "0" then showElems (Sort.sorted (ltOf k) x false)
+                else if r == "1" then showElems (Sort.sorted (ltOf k) x true) else "bad-op"
+    | none => "bad-op"
+  | "npsort", es =>
+    match parseElems? es with
+    | some x => showElems (Sort.npSorted (ltOf k) x)
+    | none => "bad-op"
+  | "min", es =>
+    match parseElems? es with
+    | some x => match Sort.tmin (ltOf k) x with | some a => showIntList a | none => "ValueError"
+    | none => "bad-op"
+  | "max", es =>
+    match parseElems? es with
+    | some x => match Sort.tmax (ltOf k) x with | some a => showIntList a | none => "ValueError"
+    | none => "bad-op"
+  | "argmin", es =>
+    match parseElems? es with
+    | some x => match Sort.targmin (ltOf k) x with
+      | some (i, a) => toString i ++ " " ++ showIntList a | none => "ValueError"
+    | none => "bad-op"
+  | "argmax", es =>
+    match parseElems? es with
+    | some x => match Sort.targmax (ltOf k) x with
+      | some (i, a) => toString i ++ " " ++ showIntList a | none => "ValueError"
+    | none => "bad-op"
+  | "minmax", es =>
+    match parseElems? es with
+    | some x => match Sort.minMax (ltOf k) x with
+      | some (a, b) => showIntList a ++ " " ++ showIntList b | none => "ValueError"
+    | none => "bad-op"
+  | _, _ => "bad-op"
+
+def showNet (net : Sort.Net) : String :=
+  if net.isEmpty then "-" else " ".intercalate (net.map fun c => toString c.1 ++ ":" ++ toString c.2)
+
 def step (line : String) : String :=
   match tokens line with
+  | ["net", n] => match parseNat? n with | some n => showNet (Sort.sortNet n) | none => "bad-op"
+  | "sort" :: k :: rest => stepSort "sort" k rest
+  | "npsort" :: k :: rest => stepSort "npsort" k rest
+  | "min" :: k :: rest => stepSort "min" k rest
+  | "max" :: k :: rest => stepSort "max" k rest
+  | "argmin" :: k :: rest => stepSort "argmin" k rest
+  | "argmax" :: k :: rest => stepSort "argmax" k rest
+  | "minmax" :: k :: rest => stepSort "minmax" k rest
   | ["reduce", n, ini] =>
     match parseNat? n, parseInit? ini with
     | some n, some ini =>
